@@ -95,9 +95,18 @@ func (t *tb) inline(c *ssa.Call, idx int, asSlice bool) (string, aff, bool) {
 	var out string
 	var outA aff
 	n := 0
+	// a callee whose last result is an error: the other results are meaningful on its success returns only (callers test the
+	// error before using them; the error paths hand back zero values)
+	errLast := false
+	if res := cal.Signature.Results(); res.Len() >= 2 && isErrType(res.At(res.Len()-1).Type()) && idx < res.Len()-1 {
+		errLast = true
+	}
 	for _, ret := range sub.Returns {
 		if idx >= len(ret.Results) {
 			return "", aff{}, false
+		}
+		if errLast && !sub.isNil(ret.Results[len(ret.Results)-1]) {
+			continue
 		}
 		var s string
 		var a aff
